@@ -35,13 +35,11 @@ void QXmppRpcManager::invokeInterfaceMethod(const QXmppRpcInvokeIq &iq)
 {
     QXmppStanza::Error error;
 
+    // a method name that is not of the form "interface.method" cannot be found: reply with an error
     const QStringList methodBits = iq.method().split(u'.');
-    if (methodBits.size() != 2) {
-        return;
-    }
     const QString interface = methodBits.first();
     const QString method = methodBits.last();
-    QXmppInvokable *iface = m_interfaces.value(interface);
+    QXmppInvokable *iface = methodBits.size() == 2 ? m_interfaces.value(interface) : nullptr;
     if (iface) {
         if (iface->isAuthorized(iq.from())) {
 
